@@ -36,12 +36,16 @@ type C17Case struct {
 	RTCase
 	Variants []C17Variant         `json:"variants"`
 	AltSteps [][]value.StepValues `json:"alt_steps"` // same values, different block partitions (per run)
+	// Repeat > 1: one stream step of every run is repeated until its binary encoding reaches this many bytes
+	// (applied when the case is checked; the repeated step gets a fixed block pattern)
+	Repeat int `json:"repeat,omitempty"`
 }
 
 const c17Rule = "generated package with at least one stream step x item sequences whose adjacent items differ in shape (independent draws: map key sets, optional presence, vector lengths, union cases) x 4-6 variants drawn from: two block partitions of the reference input, C++ CopyTo buffer sizes {1,2,3,7,64} per stream (buffer 1 = single-item overloads, >1 = batch overloads), Python write groupings {copy_to, list, lazy, one-by-one, chunks of 2/3/5}, binary and NDJSON on either side; oracle: output = the items written, in order, for every variant; non-trivial = some stream has at least 3 items with a batch size > 1 that does not divide the block sizes; distinct = hash of model + values + variants"
 
 func genC17(t *rapid.T) (C17Case, bool) {
 	cfg := rtGenConfig()
+	cfg.BulkStreamPct = 45
 	applyRuntimeExclusions(&cfg)
 	c := C17Case{RTCase: genRTCase(t, &cfg, core.Budget(2, 4), valueOpts(value.GenOpts{Budget: 30, FiniteFloats: true}, true), 14)}
 	hasStream := false
@@ -65,13 +69,31 @@ func genC17(t *rapid.T) (C17Case, bool) {
 	if !hasStream {
 		return c, false
 	}
+	if rapid.IntRange(0, 3).Draw(t, "long") == 0 {
+		c.Repeat = rapid.SampledFrom([]int{70000, 140000, 200000}).Draw(t, "repeat")
+	}
 	nv := rapid.IntRange(4, 6).Draw(t, "variants")
 	for i := 0; i < nv; i++ {
 		v := C17Variant{Lang: rapid.SampledFrom([]string{"cpp", "python"}).Draw(t, "lang"),
 			InFmt: rapid.SampledFrom([]string{"binary", "binary", "ndjson"}).Draw(t, "inFmt"), OutFmt: rapid.SampledFrom([]string{"binary", "ndjson"}).Draw(t, "outFmt"),
 			Reblock: rapid.Bool().Draw(t, "reblock")}
 		if v.Lang == "cpp" {
+			// sizes of the first blocks of the streams at hand: a read buffer that fills up exactly where a block ends
+			var firstBlocks []int
+			for ri := range c.Runs {
+				for _, steps := range [][]value.StepValues{c.Runs[ri].Steps, c.AltSteps[ri]} {
+					for _, s := range steps {
+						if s.Stream && len(s.Blocks) > 1 && s.Blocks[0] > 1 {
+							firstBlocks = append(firstBlocks, s.Blocks[0])
+						}
+					}
+				}
+			}
 			for k := 0; k < 8; k++ {
+				if len(firstBlocks) > 0 && rapid.IntRange(0, 2).Draw(t, "bufAligned") == 0 {
+					v.Buf = append(v.Buf, rapid.SampledFrom(firstBlocks).Draw(t, "bufBlock"))
+					continue
+				}
 				v.Buf = append(v.Buf, rapid.SampledFrom([]int{1, 2, 3, 7, 64}).Draw(t, "buf"))
 			}
 		} else {
@@ -96,6 +118,19 @@ func checkC17(c C17Case) *Fail {
 	// inputs: [run][reblock][fmt]
 	input := func(i int, reblock bool, fmtName string) string {
 		return filepath.Join(b.Root, fmt.Sprintf("in%d.%v.%s", i, reblock, fmtName))
+	}
+	if c.Repeat > 1 {
+		alt := make([]RTRun, len(c.Runs))
+		for i := range c.Runs {
+			alt[i] = RTRun{Proto: c.Runs[i].Proto, Steps: c.AltSteps[i]}
+		}
+		alt = repeatRuns(b.Env, b.Pkg, alt, c.Repeat, 1)
+		c.Runs = repeatRuns(b.Env, b.Pkg, c.Runs, c.Repeat, 0)
+		c.AltSteps = nil
+		for i := range alt {
+			c.AltSteps = append(c.AltSteps, alt[i].Steps)
+		}
+		rec.Class("long-stream")
 	}
 	for i, run := range c.Runs {
 		proto := b.Pkg.Find(run.Proto)
